@@ -67,6 +67,8 @@ enum Budget {
     NeedMinus2,
     NeedMinus1,
     Need,
+    /// `usize::MAX`: no limit in effect
+    Max,
 }
 
 #[derive(Clone, Debug, Serialize, Deserialize)]
@@ -166,7 +168,7 @@ fn decode(t: &mut Tape) -> Case {
     let budget = if backward {
         Budget::Default
     } else {
-        [Budget::Default, Budget::Zero, Budget::One, Budget::NeedMinus2, Budget::NeedMinus1, Budget::Need][t.weighted(&[40, 8, 8, 14, 15, 15])]
+        [Budget::Default, Budget::Zero, Budget::One, Budget::NeedMinus2, Budget::NeedMinus1, Budget::Need, Budget::Max][t.weighted(&[36, 8, 8, 14, 15, 15, 4])]
     };
     // blocks whose instruction indices are not dense (what removing an instruction leaves)
     if t.chance(1, 4) {
@@ -737,6 +739,7 @@ fn check(case: &Case, obs: &mut Obs) -> Result<(), Failure> {
         Budget::NeedMinus2 => "budget-need-2",
         Budget::NeedMinus1 => "budget-need-1",
         Budget::Need => "budget-need",
+        Budget::Max => "budget-usize-max",
     });
 
     // ---- oracle (monotone analyses only: otherwise there need not be a least solution)
@@ -801,6 +804,7 @@ fn check(case: &Case, obs: &mut Obs) -> Result<(), Failure> {
             Budget::One => 1,
             Budget::NeedMinus2 => need.saturating_sub(2),
             Budget::NeedMinus1 => need.saturating_sub(1),
+            Budget::Max => u64::MAX,
             _ => need,
         };
         let base_ok = matches!(out0, Out::Ok(_));
